@@ -1108,9 +1108,13 @@ class Engine(Executor):
                     box.length = ln
                     box.version = getattr(box, "version", 0) + 1
         env2["result"] = res
+        callee_locals = assigned_names(fi.node.body)[0] - {a_.arg for a_ in fi.node.args.args + fi.node.args.kwonlyargs} - {"result"}
         for en in c.ensures:
-            if fi.is_generator and any(isinstance(n_, ast.Name) and n_.id in ("out", "looped") for n_ in ast.walk(ast.parse(en, mode="eval"))):
+            used = {n_.id for n_ in ast.walk(ast.parse(en, mode="eval")) if isinstance(n_, ast.Name)}
+            if fi.is_generator and used & {"out", "looped"}:
                 continue          # a clause over the whole sequence of yields: the consuming loop sees one abstract element at a time
+            if used & callee_locals:
+                continue          # a clause about the callee's own locals at its return point: checked against its body, no fact for callers
             nxt = []
             for st in states:
                 for (s2, b) in self.eval_clause(en, st, env2, node):
@@ -1171,7 +1175,17 @@ class Engine(Executor):
         if stmt.orelse:
             raise Unsupported("for/else", stmt)
         out = []
-        for (s, it) in self.ev_iter(stmt.iter, st):
+        iter_expr = stmt.iter
+        if isinstance(iter_expr, ast.Call) and isinstance(iter_expr.func, ast.Name) and iter_expr.func.id == "list" \
+                and len(iter_expr.args) == 1 and not iter_expr.keywords and "list" not in st.env:
+            inner = iter_expr.args[0]
+            is_view = isinstance(inner, ast.Call) and isinstance(inner.func, ast.Attribute) and inner.func.attr in ("items", "keys", "values") \
+                and not inner.args and not inner.keywords and isinstance(inner.func.value, (ast.Name, ast.Attribute))
+            if isinstance(inner, (ast.Name, ast.Attribute)) or is_view:
+                # `for x in list(X)` over a container or a dict view: the loop runs over a snapshot taken at loop entry --
+                # which is how every iterable is modelled here (count and elements are fixed in the entry state)
+                iter_expr = inner
+        for (s, it) in self.ev_iter(iter_expr, st):
             if is_exc(it):
                 out.append((s, ("raise", it)))
                 continue
